@@ -55,6 +55,7 @@ def run(ctx):
     import c04
     c04.rule_fold(ctx, F)
     rule_split(ctx, F)
+    rule_dsrrsig(ctx, F)
 
 
 def _body(F, rx):
@@ -750,3 +751,51 @@ def rule_split(ctx, F):
     got_m = _eval_src(bm, 16) if bm is not None else None
     ctx.ob(R, b, "bit mask = 0x80 >> bits 2..0 of the type", okm and got_m == {0, 1, 2},
            "split_rtype's bit mask is not 0x80 >> (type & 7) (shift amount from bits %s)" % (sorted(got_m) if got_m is not None else "?"))
+
+
+def rule_dsrrsig(ctx, F):
+    """RFC 5155 7.1: at a delegation the DS RRset is authoritative and signed, so the bitmap of a
+    *secure* delegation has the RRSIG bit and that of an insecure one has not.  In the NSEC3 generator the block that adds
+    RRSIG lies behind the `cut.is_none()` test with a second way in: from the test's "at a cut" edge the add is still
+    reachable without coming back through the test (the DS case), and it can also be passed by (the insecure case)."""
+    R = "C13.dsrrsig"
+    ctx.floor(R, 2)
+    n = 0
+    for p, b in sorted(F.bodies.items()):
+        if not re.match(r"^dnssec::sign::denial::nsec3::generate_nsec3s$", p):   # (an NSEC always has RRSIG: it is signed itself)
+            continue
+        adds = [bb for bb, t in b.calls() if re.search(r"RtypeBitmapBuilder.*::add$", t["fn"] or "") and len(t["args"]) > 1
+                and (deep_strip(b.term_of_operand(t["args"][1]))[3:4] or [""])[0] and
+                str(deep_strip(b.term_of_operand(t["args"][1]))[3]).endswith("Rtype::RRSIG")]
+        if not ctx.anchor(R, "%s: the one place that adds RRSIG to a bitmap" % p.split("::")[-1], len(adds) == 1, b.where()):
+            continue
+        B = adds[0]
+        bf = BranchFacts(b, F)
+        found = False
+        for sw in sorted(b.reachable_blocks()):
+            if b.blocks[sw]["t"]["k"] != "switch" or not b.dominates(sw, B):
+                continue
+            ef = bf.edge_facts(sw)
+            tgt = {}
+            for lab, (tm, v) in ef.items():
+                tm = deep_strip(tm)
+                if isinstance(v, bool) and tm[0] == "call" and re.search(r"is_none$", tm[1] or ""):
+                    tgt[v] = b.edge_target(sw, lab)
+            if True not in tgt or False not in tgt:
+                continue
+            if b.path_avoiding(tgt[True], B, removed_blocks={sw}) is None:
+                continue
+            found = True
+            n += 1
+            at_cut = b.path_avoiding(tgt[False], B, removed_blocks={sw})
+            ctx.ob(R, b, "%s: a delegation with a DS RRset gets the RRSIG bit" % p.split("::")[-1], at_cut is not None,
+                   "%s adds the RRSIG bit only where there is no zone cut: the bitmap of a secure delegation (NS + DS, the DS RRset "
+                   "is signed) lacks RRSIG, and a validator takes the DS's signature for bogus or the denial for wrong"
+                   % p.split("::")[-1], b.where(B))
+            heads = {bb for bb, t in b.calls() if (t["fn"] or "").endswith("Iterator::next") and b.dominates(bb, sw)}
+            skip = b.path_avoiding(tgt[False], heads | set(b.return_blocks()), removed_blocks={B})
+            ctx.ob(R, b, "%s: a delegation without DS does not get the RRSIG bit" % p.split("::")[-1], skip is not None,
+                   "%s adds the RRSIG bit at every zone cut: an insecure delegation claims signatures that do not exist"
+                   % p.split("::")[-1], b.where(B))
+            break
+        ctx.anchor(R, "%s: cut.is_none() test in front of the RRSIG bit" % p.split("::")[-1], found, b.where(B))
